@@ -199,6 +199,28 @@ _CMP = {"==": lambda a, b: a == b, "!=": lambda a, b: a != b, "<": lambda a, b: 
         ">": lambda a, b: a > b, ">=": lambda a, b: a >= b}
 
 
+def segtype_subject(fb, x):
+    """When x reads a message's segment type — MessageHeader::getSegmentType() on a view, or an in-repo helper that
+    returns the SegmentType of the header at its pointer parameter — the expression that says *which* message:
+    the getter's object resp. the helper's pointer argument.  Else None."""
+    x = strip_all_casts(x)
+    if x.get("k") != "call":
+        return None
+    if callee_name(x) == MH + "::getSegmentType":
+        return x.get("obj")
+    g = fb.resolve_call(x)
+    if g is not None and g.body is not None and (g.raw.get("rett") or {}).get("enum") == SEGTYPE and x.get("args"):
+        rets = g.returns()
+        if len(rets) == 1 and isinstance(rets[0].get("e"), dict):
+            inner = strip_all_casts(facts.expand(g, rets[0]["e"]))
+            if inner.get("k") == "call" and callee_name(inner) == MH + "::getSegmentType":
+                pd = [q["decl"] for q in g.params]
+                rd = [d for d in reads(inner.get("obj", {})) if d in pd]
+                if len(rd) == 1 and pd.index(rd[0]) < len(x["args"]):
+                    return x["args"][pd.index(rd[0])]
+    return None
+
+
 def _segtype_test(fb, fn, e, path=None, depth=0):
     """If boolean expression e is a test of MessageHeader::getSegmentType() against a constant,
     return (op, constant) such that e == (segment type `op` constant); else None.  Looks through
@@ -222,7 +244,7 @@ def _segtype_test(fb, fn, e, path=None, depth=0):
         op, l, r = ops
         for x, y, flip in ((l, r, False), (r, l, True)):
             xs = strip_all_casts(facts.expand(fn, path.value_of(x) if path is not None else x))
-            if xs.get("k") == "call" and callee_name(xs) == MH + "::getSegmentType" and const_value(y) is not None:
+            if segtype_subject(fb, xs) is not None and const_value(y) is not None:
                 if flip:
                     op = {"<": ">", ">": "<", "<=": ">=", ">=": "<="}.get(op, op)
                 if neg:
@@ -247,8 +269,9 @@ def segtest_on(fb, fn, e, cur, p=None):
     while x.get("k") == "un" and x.get("op") == "!":
         x = strip_all_casts(x["e"])
     for y in walk(x):
-        if y.get("k") == "call" and callee_name(y) == MH + "::getSegmentType":
-            return cur is not None and cur in reads(y.get("obj", {}))
+        subj = segtype_subject(fb, y) if y.get("k") == "call" else None
+        if subj is not None:
+            return cur is not None and cur in reads(subj)
         if y.get("k") == "call" and y.get("args"):
             g = fb.resolve_call(y)
             if g is not None and g.body is not None and (g.raw.get("rett") or {}).get("k") == "bool":
@@ -359,10 +382,12 @@ def rule_segtype_subject(res, rid, m):
                 if e.get("id") in seen:
                     continue
                 is_test = (a[0] == "truth" and _segtype_test(fb, p.fn, e, p) is not None) or \
-                    (a[0] != "truth" and callee_name(strip_all_casts(facts.expand(p.fn, p.value_of(e)))) == MH + "::getSegmentType")
+                    (a[0] != "truth" and segtype_subject(fb, facts.expand(p.fn, p.value_of(e))) is not None)
                 if not is_test:
                     continue
                 seen.add(e.get("id"))
+                if cur is None:
+                    raise Broken("message loop: the validator's pointer argument is not a plain variable; cannot tell which message a segment-type test reads")
                 n += 1
                 res.check(segtest_on(fb, p.fn, e, cur, p), rid, "segment-test@%s" % (e.get("loc") or "").split(":", 1)[-1], e.get("loc"),
                           "segment type read from the validated message at the cursor",
@@ -389,13 +414,13 @@ def seg_labels(fb, p):
     for a in p.atoms:
         if a[0] == "switch":
             cond = a[4]
-            if cond is not None and callee_name(strip_all_casts(facts.expand(p.fn, p.value_of(cond)))) == MH + "::getSegmentType":
+            if cond is not None and segtype_subject(fb, facts.expand(p.fn, p.value_of(cond))) is not None and on_cursor(cond):
                 poss &= ({a[2]} if a[2] != "default" else poss - set(a[3]))
             continue
         if a[0] == "cmp":
             for x, y, flip in ((a[4], a[5], False), (a[5], a[4], True)):
                 xs = strip_all_casts(facts.expand(p.fn, p.value_of(x)))
-                if xs.get("k") == "call" and callee_name(xs) == MH + "::getSegmentType" and const_value(y) is not None and on_cursor(x):
+                if segtype_subject(fb, xs) is not None and const_value(y) is not None and on_cursor(x):
                     op = a[2]
                     if flip:
                         op = {"<": ">", ">": "<", "<=": ">=", ">=": "<="}.get(op, op)
@@ -404,6 +429,17 @@ def seg_labels(fb, p):
             continue
         if a[0] == "truth":
             t = _segtype_test(fb, p.fn, a[3], p)
+            if t is None and a[2] is False:
+                # `flag = A && B` known false while A is known true on this path: B is false
+                d = facts.current_definition(p.fn, a[3]) if strip_all_casts(a[3]).get("k") == "ref" else None
+                d = strip(d) if d is not None else None
+                if d is not None and d.get("k") == "bin" and d.get("op") == "&&":
+                    true_here = {b[1] for b in p.atoms if b[0] == "truth" and b[2] is True}
+                    for l, r in ((d["l"], d["r"]), (d["r"], d["l"])):
+                        if canon(strip(l)) in true_here or canon(strip_all_casts(p.value_of(l))) in true_here:
+                            t2 = _segtype_test(fb, p.fn, r, p)
+                            if t2 is not None and on_cursor(r):
+                                poss = {v for v in poss if _CMP[facts._neg_op(t2[0])](v, t2[1])}
             if t is not None and not on_cursor(a[3]):
                 t = None  # a test of some other message's segment type says nothing about this one
             if t is not None:
@@ -656,6 +692,10 @@ def rule_loop_typestate(res, rid, m):
     ps = m.body_paths()
     n = 0
     seen_classes = set()
+    # when whole protocol cases cannot be found the classification has lost the code's structure: nothing below would be believable
+    missing0 = set(EXPECT_LAST) - {classify(p) for p in ps}
+    if missing0:
+        raise Broken("decode loop: protocol cases without a path: %s" % sorted(missing0))
     for p in ps:
         cls = classify(p)
         ops = m.path_table_ops(p)
